@@ -490,9 +490,10 @@ class ConnectedRemotePeer(RemotePeer):
                 return
 
             # apply first: a block that cannot be applied (e.g. it spends an output that does not exist) raises here
-            # and must not be left behind in the block store's write buffer.
+            # and must not be left behind in the block store's write buffer. For the same reason a block that is going
+            # to be validated is handed to the store only once it has passed: the miner's thread may flush the store's
+            # write buffer at any moment, also in the middle of the (very slow) validation below.
             coinstate_changed = coinstate_prior.add_block_no_validation(block)
-            self.local_peer.disk_interface.save_block(block)
 
             if header.in_response_to == 0 or not requested or block.height % IBD_VALIDATION_SKIP == 0:
                 # Validation is very slow, and we don't have to validate every block in a blockchain, so
@@ -515,8 +516,10 @@ class ConnectedRemotePeer(RemotePeer):
                     return
 
                 self.local_peer.chain_manager.set_coinstate(coinstate_changed, validated=True)
+                self.local_peer.disk_interface.save_block(block)
                 self.local_peer.disk_interface.flush_blocks()
             else:
+                self.local_peer.disk_interface.save_block(block)
                 self.local_peer.chain_manager.set_coinstate(coinstate_changed, validated=False)
 
             if block == coinstate_changed.head() and header.in_response_to == 0:
